@@ -78,4 +78,15 @@ def generate(rng, tier, focus):
         p = scen.rand_chain(rng, ["cold", 0], rng.choice([0, 1, 2]))
         acts = [sub(0, p, (rng.randrange(3), ["unsub-self"])), ["unsub", 0], ["unsub", 0]]
         cases.append((scn(srcs=[src([s], rng.random() < 0.5)], handles=1, script_=acts), {"k": "cold"}))
+    # hand-driven sources that never look at is_subscribed: unsubscribe at every position, then the source goes on (items, error, complete)
+    for _ in range(1200 if thorough else 200):
+        d = rng.choice([0, 0, 1, 2])
+        p = scen.rand_chain(rng, ["manual", 0], d)
+        pushes = [["push", 0, n(rng.choice(items))] for _ in range(rng.randrange(1, 4))]
+        tail = [["push", 0, rng.choice([n(7), e(4), C])] for _ in range(rng.randrange(1, 4))]
+        for pos in range(0, len(pushes) + 1):
+            acts = [sub(0, p)] + pushes[:pos] + [["unsub", 0]] + pushes[pos:] + tail
+            cases.append((scn(handles=1, script_=acts), {"k": "manual-unsub"}))
+        i = rng.randrange(0, 3)
+        cases.append((scn(handles=1, script_=[sub(0, p, (i, ["unsub-self"]))] + pushes + tail), {"k": "manual-self-unsub"}))
     return cases
